@@ -45,11 +45,15 @@ package verifier
 //@ pure func hasStr(s []string, x string) bool = exists(i, 0, len(s), s[i] == x)
 //@ pure func x509Identity(id string, m map[string]string) bool = cutFound(id, ":") && cutBefore(id, ":") == "x509.subject" && cutAfter(id, ":") != "" && isParseOf(m, cutAfter(id, ":"))
 
+// identityChecked(ids, chain): provenance tag — verifyX509TrustedIdentities returned nil for exactly these identities and this chain
+//@ ghost func identityChecked(ids []string, chain []*x509.Certificate) bool
+
 //@ func verifyX509TrustedIdentities
 //@ props C04
 //@ requires len(certs) >= 1 && certs[0] != nil
 //@ ensures[C04.wildcard] hasStr(trustedIdentities, "*") ==> result == nil
 //@ ensures-local[C04.leaf-subset] result == nil && !hasStr(trustedIdentities, "*") ==> subsetDN(trustedX509Identity, leafCertDN) && isParseOf(leafCertDN, subjectString(certs[0])) && exists(q, 0, len(trustedIdentities), x509Identity(trustedIdentities[q], trustedX509Identity))
+//@ ensures-ghost result == nil ==> identityChecked(trustedIdentities, certs)
 //@ loop 1 invariant newsince(trustedX509Identities)
 //@ loop 1 invariant forall(t, 0, len(trustedX509Identities), exists(q, 0, rangeindex+1, x509Identity(trustedIdentities[q], trustedX509Identities[t])))
 
@@ -181,6 +185,7 @@ package verifier
 //@ ensures[C02.enforced-failure-rejects] result == nil ==> noEnforcedFailure(outcome)
 //@ ensures[C02.results-kept] len(outcome.VerificationResults) >= old(len(outcome.VerificationResults)) && forall(r, 0, old(len(outcome.VerificationResults)), outcome.VerificationResults[r] == old(outcome.VerificationResults[r]) && outcome.VerificationResults[r].Type == old(outcome.VerificationResults[r].Type))
 //@ ensures[C02.skip-not-performed] !hasCap(capabilitiesToVerify, pluginframework.CapabilityRevocationCheckVerifier) ==> len(outcome.VerificationResults) == old(len(outcome.VerificationResults))
+//@ ensures[C02.errors-kept] forall(r, 0, old(len(outcome.VerificationResults)), old(outcome.VerificationResults[r].Error) != nil ==> outcome.VerificationResults[r].Error != nil)
 //@ ensures-ghost result == nil ==> forall(i, 0, len(extAttrs(outcome)), nonPluginKey(extAttrs(outcome)[i]) ==> pluginProcessed(extAttrs(outcome)[i].Key))
 //@ ensures[C02.plugin-revocation-reported] result == nil ==> forall(c, 0, len(capabilitiesToVerify), capabilitiesToVerify[c] == pluginframework.CapabilityRevocationCheckVerifier && !response.VerificationResults[capabilitiesToVerify[c]].Success ==> exists(r, 0, len(outcome.VerificationResults), outcome.VerificationResults[r].Type == trustpolicy.TypeRevocation && outcome.VerificationResults[r].Error != nil))
 //@ loop 1 invariant forall(a, 0, rangeindex+1, exists(p, 0, len(response.ProcessedAttributes), response.ProcessedAttributes[p] == ranged()[a].Key))
@@ -193,6 +198,7 @@ package verifier
 //@ loop 2 invariant len(outcome.VerificationResults) >= old(len(outcome.VerificationResults)) && forall(r, 0, old(len(outcome.VerificationResults)), outcome.VerificationResults[r] == old(outcome.VerificationResults[r]) && outcome.VerificationResults[r].Type == old(outcome.VerificationResults[r].Type))
 //@ loop 2 invariant (forall(c, 0, rangeindex+1, capabilitiesToVerify[c] != pluginframework.CapabilityRevocationCheckVerifier)) ==> len(outcome.VerificationResults) == old(len(outcome.VerificationResults))
 //@ loop 2 invariant forall(c, 0, rangeindex+1, response.VerificationResults[capabilitiesToVerify[c]] != nil)
+//@ loop 2 invariant forall(r, 0, old(len(outcome.VerificationResults)), old(outcome.VerificationResults[r].Error) != nil ==> outcome.VerificationResults[r].Error != nil)
 //@ loop 2 invariant forall(c, 0, rangeindex+1, capabilitiesToVerify[c] == pluginframework.CapabilityRevocationCheckVerifier && !response.VerificationResults[capabilitiesToVerify[c]].Success ==> exists(r, 0, len(outcome.VerificationResults), outcome.VerificationResults[r].Type == trustpolicy.TypeRevocation && outcome.VerificationResults[r].Error != nil))
 //@ loop 2 invariant forall(i, 0, len(outcome.EnvelopeContent.SignerInfo.SignedAttributes.ExtendedAttributes), nonPluginKey(outcome.EnvelopeContent.SignerInfo.SignedAttributes.ExtendedAttributes[i]) ==> exists(p, 0, len(response.ProcessedAttributes), response.ProcessedAttributes[p] == outcome.EnvelopeContent.SignerInfo.SignedAttributes.ExtendedAttributes[i].Key))
 //@ loop 2 modifies outcome.VerificationResults, fieldsof(notation.ValidationResult, Error), elems(outcome.VerificationResults)
@@ -250,7 +256,7 @@ package verifier
 //@ pure func verifierWF(v *verifier) bool = v != nil && v.trustStore != nil && v.revocationTimestampingValidator != nil
 
 //@ func (*verifier).processSignature
-//@ props C01 C02 C03
+//@ props C01 C02 C03 C04 C05
 //@ requires verifierWF(v) && outcome != nil && outcome.VerificationLevel != nil && len(outcome.VerificationResults) == 0
 //@ modifies outcome.EnvelopeContent, outcome.VerificationResults, elems(outcome.VerificationResults), fieldsof(notation.ValidationResult, Error)
 //@ ensures[C01.integrity] result == nil ==> outcome.EnvelopeContent != nil && verifiedContent(outcome.EnvelopeContent, string(sigBlob), envelopeMediaType) && outcome.EnvelopeContent.Payload.ContentType == envelope.MediaTypePayloadV1
@@ -267,6 +273,8 @@ package verifier
 // F12b (plugin installed, not executed: the final return) is a separate obligation from every other case.
 //@ ensures-local[C02.crit-attrs-no-plugin] result == nil ==> (installedPlugin == nil ==> forall(i, 0, len(extAttrs(outcome)), extAttrs(outcome)[i].Critical && nonPluginKey(extAttrs(outcome)[i]) ==> pluginProcessed(extAttrs(outcome)[i].Key)))
 //@ ensures-local[C02.crit-attrs-plugin] result == nil ==> (installedPlugin != nil ==> forall(i, 0, len(extAttrs(outcome)), extAttrs(outcome)[i].Critical && nonPluginKey(extAttrs(outcome)[i]) ==> pluginProcessed(extAttrs(outcome)[i].Key)))
+//@ ensures-local[C04.native-identity,C02.native-identity] result == nil ==> (hasCap(pluginCapabilities, pluginframework.CapabilityTrustedIdentityVerifier) || identityChecked(trustedIdentities, chainOf(outcome)) || outcome.VerificationResults[1].Error != nil)
+//@ ensures-local[C02.native-revocation,C05.native-revocation] result == nil && outcome.VerificationLevel.Enforcement[trustpolicy.TypeRevocation] != trustpolicy.ActionSkip ==> (hasCap(pluginCapabilities, pluginframework.CapabilityRevocationCheckVerifier) || (len(outcome.VerificationResults) >= 5 && outcome.VerificationResults[4].Type == trustpolicy.TypeRevocation))
 //@ at call loadX509TrustStores: assert[C03.policy-stores] arg1 == outcome.EnvelopeContent.SignerInfo.SignedAttributes.SigningScheme && arg3 == trustStores && arg4 == v.trustStore
 //@ at call loadX509TrustStores: assert[C02.plugin-required] verificationPluginName != "" ==> installedPlugin != nil && len(pluginCapabilities) > 0 && forall(c, 0, len(pluginCapabilities), pluginCapabilities[c] == pluginframework.CapabilityRevocationCheckVerifier || pluginCapabilities[c] == pluginframework.CapabilityTrustedIdentityVerifier)
 //@ at call loadX509TrustStores: assert[C02.no-plugin] verificationPluginName == "" ==> installedPlugin == nil && len(pluginCapabilities) == 0
